@@ -157,6 +157,36 @@ def render(tokens, rng, names, plain=False):
     return out
 
 
+TRUTHY = [True, 1, 2, 'yes', 2.5, [0], {'k': 0}]
+FALSY = [False, 0, '', None, [], 0.0, {}]
+
+
+def custom_leaf_decisions(text, k, salt):
+    """the same rule with its leaves replaced by custom checks that answer with arbitrary truthy / falsy values
+    (not only True / False): the decision is the Boolean combination of their truth values"""
+    import world
+    from oslo_policy import policy
+    world.register_custom()
+    kinds = ['c4a', 'c3a', 'c4b']
+    for i in range(k):
+        text = text.replace('role:r%d' % i, '%s:x' % kinds[i])
+    e = enforcer()
+    e.set_rules(policy.Rules.from_dict({'the_rule': text}), use_conf=False)
+    out = []
+    for m in range(2 ** k):
+        world._custom_results.clear()
+        for i in range(k):
+            pool = TRUTHY if (m >> i) & 1 else FALSY
+            world._custom_results[kinds[i]] = pool[(salt + m + i) % len(pool)]
+        try:
+            out.append(bool(e.enforce('the_rule', {}, {'roles': []})))
+        except Exception as ex:   # noqa
+            out.append('EXC ' + type(ex).__name__)
+    world._custom_results.clear()
+    del world._trace[:]
+    return out
+
+
 def check_spec_case(run, o, k, text_variants, spec_dec, label):
     """implementation decisions on every rendering must equal the documented value"""
     nontriv = len(set(spec_dec)) > 1
@@ -169,6 +199,18 @@ def check_spec_case(run, o, k, text_variants, spec_dec, label):
                           'rule %r decides %r under roles mask %d, documented value %r'
                           % (text, got[bad], bad, spec_dec[bad]),
                           {'kind': 'failing-input', 'suite': 'spec-c01', 'input': {'rule': text, 'k': k},
+                           'expected': spec_dec, 'observed': got})
+            return False
+    if k <= 3 and len(text_variants[0]) % 3 == 0:
+        got = custom_leaf_decisions(text_variants[0], k, len(text_variants[0]))
+        run.evaluations += 1
+        if got != spec_dec:
+            bad = [m for m in range(len(got)) if got[m] != spec_dec[m]][0]
+            run.violation('decision:%s:truthy-leaves' % label,
+                          'rule %r with leaves answering truthy/falsy non-Boolean values decides %r under mask %d, '
+                          'documented value %r' % (text_variants[0], got[bad], bad, spec_dec[bad]),
+                          {'kind': 'failing-input', 'suite': 'spec-c01', 'input': {'rule': text_variants[0], 'k': k,
+                                                                                  'custom_leaves': True},
                            'expected': spec_dec, 'observed': got})
             return False
     if nontriv:
